@@ -22,8 +22,8 @@ RULE = ('a case = an initial Loop tree (depth <= 3, <= 3 children per node, coun
         'non-constant leaf waveforms with dyadic durations, optional measurements) + a history of editing/query '
         'operations (quick: <= 12, thorough: <= 30) whose target nodes are chosen by selectors resolved on the real tree; '
         'arguments include boundary values (negative / out-of-range indices, empty / extended / negative-step slices, '
-        'count 0, unroll of the root, merge with measurements).  Plus exhaustive histories over a fixed 16-operation '
-        'alphabet on seed trees (quick: length 2 on 2 trees, thorough: length <= 3 on 3 trees).  After EVERY operation '
+        'count 0, unroll of the root, merge with measurements).  Plus exhaustive histories over a fixed 18-operation '
+        'alphabet on seed trees (quick: length 2 on 2 trees, thorough: length <= 3 on 3 trees); roll-centred histories; == against a structural copy that is left unchanged or changed in exactly one respect.  After EVERY operation '
         'every reachable node is observed (reported duration, parent_index, parent identity, locate(get_location())).  '
         'Non-trivial = history with >= 2 effective (non-query, non-raising) edits and >= 1 duration query before an edit; '
         'distinct = distinct canonical JSON of the case.')
@@ -46,7 +46,7 @@ ASSUMPTIONS = [
 
 KINDS = {'IndexError': 'KIndex', 'TypeError': 'KType', 'ValueError': 'KValue', 'RuntimeError': 'KRuntime',
          'AttributeError': 'KAttr', 'AssertionError': 'KAssert'}
-QUERY_OPS = {'qdur', 'qbody', 'eq', 'nop'}
+QUERY_OPS = {'qdur', 'qbody', 'eq', 'eqcopy', 'nop'}
 
 # ---------------------------------------------------------------------------------------------------------------------
 # generation
@@ -97,7 +97,7 @@ def rnd_optz(rng, lo=-4, hi=5):
 
 OPW = [('append', 10), ('setint', 6), ('setslice', 9), ('setwf', 5), ('setrep', 8), ('setrdef', 4), ('unroll', 6),
        ('unrollc', 5), ('split', 6), ('encaps', 5), ('merge', 5), ('cleanup', 4), ('reverse', 6), ('copyappend', 5),
-       ('qdur', 14), ('qbody', 6), ('eq', 4)]
+       ('qdur', 14), ('qbody', 6), ('eq', 3), ('eqcopy', 5)]
 
 
 def rnd_op(rng, allow_roll):
@@ -128,6 +128,8 @@ def rnd_op(rng, allow_roll):
         op.update(dst=rnd_sel(rng), np=rng.randint(0, 2))
     elif k == 'eq':
         op.update(sel2=rnd_sel(rng))
+    elif k == 'eqcopy':
+        op.update(k=rng.choice([0, 0, 1, 1, 2, 3, 4, 5]))
     return op
 
 
@@ -161,6 +163,8 @@ ALPHABET = [
     {'op': 'encaps', 'sel': [0]},
     {'op': 'cleanup', 'sel': [], 'rm': True, 'mg': True},
     {'op': 'reverse', 'sel': []},
+    {'op': 'roll', 'sel': [], 'mq': 2, 'q': 1, 'sr': '1'},
+    {'op': 'setwf', 'sel': [0, 0], 'w': ['c', '12', 2]},
 ]
 
 
@@ -182,6 +186,28 @@ def gen_cases(rng, tier, ctx):
         init = rnd_spec(rng, rng.choice([1, 2, 2, 3]), leaf_p=0.15)
         n = rng.randint(2, maxlen)
         cases.append({'kind': 'hist', 'src': 'rand', 'init': init, 'ops': [rnd_op(rng, allow_roll) for _ in range(n)]})
+    # roll-centred histories: constant leaves that really get rolled, queries before, edits of the rolled leaves after
+    for i in range(60 if quick else 1200):
+        def cl():
+            return L(['c', rng.choice(['4', '6', '8', '9', '12', '16']), rng.randint(0, 2)], rng.choice([1, 2, 3]))
+        init = N([cl(), N([cl(), cl()], rng.choice([1, 2])), cl()][:rng.randint(1, 3)], rng.choice([1, 2]))
+        ops = []
+        for _ in range(rng.randint(3, 8 if quick else 14)):
+            r = rng.random()
+            if r < 0.3:
+                ops.append({'op': rng.choice(['qdur', 'qbody']), 'sel': rnd_sel(rng)})
+            elif r < 0.55:
+                ops.append({'op': 'roll', 'sel': rng.choice([[], [], [1]]), 'mq': rng.choice([1, 2, 2, 3]),
+                            'q': rng.choice([1, 1, 2]), 'sr': rng.choice(['1', '1', '2', '1/2'])})
+            elif r < 0.7:
+                ops.append({'op': 'setwf', 'sel': rnd_sel(rng), 'w': ['c', rng.choice(['4', '8', '12', '3']), 1]})
+            elif r < 0.8:
+                ops.append({'op': 'setrep', 'sel': rnd_sel(rng), 'z': rng.choice([1, 2, 3])})
+            elif r < 0.9:
+                ops.append({'op': 'append', 'sel': rnd_sel(rng), 't': cl(), 'kw': rng.random() < 0.5})
+            else:
+                ops.append(rnd_op(rng, True))
+        cases.append({'kind': 'hist', 'src': 'rollmix', 'init': init, 'ops': ops})
     return cases
 
 
@@ -394,6 +420,24 @@ def apply_op(env, root, op):
             x.duration
         elif k == 'qbody':
             x.body_duration
+        elif k == 'eqcopy':
+            c = x.copy_tree_structure(new_parent=None)
+            pk = op['k']
+            if pk == 1:
+                c._measurements = list(c._measurements or []) + [('m9', 0.0, 1.0)]
+            elif pk == 2:
+                c.repetition_definition = int(c.repetition_count) + 1
+            elif pk == 3:
+                c.waveform = env.wf(['c', '7', 3])
+            elif pk == 4:
+                d = c
+                while len(d):
+                    d = d[0]
+                d.repetition_definition = int(d.repetition_count) + 1
+            elif pk == 5:
+                if c._measurements is None:
+                    c._measurements = []
+            eq = bool(x == c)
         elif k == 'eq':
             y, p2 = resolve(root, op['sel2'])
             rop['path2'] = p2
@@ -517,6 +561,8 @@ def g_op(o):
         return '(OQueryBody %s)' % p
     if k == 'eq':
         return '(OEq %s %s)' % (p, g_path(o['path2']))
+    if k == 'eqcopy':
+        return '(OEqCopy %s %d%%nat)' % (p, o['k'])
     raise KeyError(k)
 
 
